@@ -413,6 +413,9 @@ func init() {
 			ruleTypePredicates(c, "K3-predicates")
 			ruleTypeConstructors(c, "K4-constructors")
 			ruleChanDirTable(c, "K4-constructors")
+			ruleCloneSignature(c, "K5s-clone-signature", "xreflect")
+			ruleFieldFromReflect(c, "K6f-field-from-reflect")
+			ruleNoDuplicateOperands(c, "Z1-no-duplicate-operands", "fast", "xreflect", "base/untyped", "base/reflect")
 		}},
 		Technique: "AST/type-resolved custom analysis: who-may-allocate, lookup-before-allocate-before-store order, delegation and operand-order checks",
 		Mutants: []Mutant{
